@@ -252,11 +252,23 @@ def check(run, F, tier):
             f = cands[0]
             # every construction of the packet struct in this function takes its fixed_header from FixedHeader::<Kind>
             found = []
-            for b in f["blocks"]:
-                for s in b["stmts"]:
-                    if s["k"] == "assign" and s["rv"]["k"] == "agg" and s["rv"].get("adt") == path:
-                        idx = s["rv"]["fields"].index("fixed_header")
-                        found.append(trace_fixed_header(F, f, s["rv"]["ops"][idx]))
+            # the function itself and the private helpers of the same module it calls (e.g. a shared `from_parts`)
+            todo, seen_c = [f], {f["path"]}
+            while todo:
+                g = todo.pop()
+                for b in g["blocks"]:
+                    for s in b["stmts"]:
+                        if s["k"] == "assign" and s["rv"]["k"] == "agg" and s["rv"].get("adt") == path:
+                            idx = s["rv"]["fields"].index("fixed_header")
+                            found.append(trace_fixed_header(F, g, s["rv"]["ops"][idx]))
+                    t = b["term"]
+                    if t["k"] == "call" and "fn" in t["func"].get("const", {}):
+                        fi = t["func"]["const"]["fn"]
+                        cp = (fi.get("res") or {}).get("path", fi["path"])
+                        h = F.fns.get(cp)
+                        if h is not None and cp not in seen_c and not h.get("pub") and h.get("file") == f.get("file") and h.get("kind") in ("Fn", "AssocFn"):
+                            seen_c.add(cp)
+                            todo.append(h)
             delegated = any(b["term"]["k"] == "call" and b["term"]["func"].get("const", {}).get("fn", {}).get("path", "").endswith("Builder::build")
                             and path.split("::")[-1].replace("Generic", "") in b["term"]["func"]["const"]["fn"]["path"] for b in f["blocks"])
             if not found and delegated:
